@@ -17,7 +17,8 @@ correspondence  random ratio trajectories (max ratio 0.5…64, slews 0…4000, c
 falsifier       on the real code only: integer oracles of the property on the exported state (target reached and kept,
                 linear slew, increment rounding); sine-fit residual >= 80 dB and N/ratio within two frames at constant
                 ratios; ramp read-back (trajectory r(t), time continuity) and second-difference bound (no discontinuity)
-                over trajectories crossing every octave both ways; CR engines refuse; request-size schedules (F12);
+                over trajectories crossing every octave both ways; CR engines refuse; request-size schedules (F12); the F36
+                witness with a sine (no garbage at the end of a call with three up-switches) and under UBSan;
                 ASan/UBSan build with C99 shift rules (F14 stays repaired); the Lean witnesses of F13 (must end at the
                 requested ratio) and of F35 (must run through the asserts-on build, streams aligned) replayed.
 """
@@ -686,6 +687,40 @@ def witness_f35_stage(ctx, exe_dbg, exe_rel, fails, known):
     return []
 
 
+def witness_f36_numeric(ctx, exe_rel, tmp, fails):
+    """The wrong-output half of F36 on the real code: a sine through the witness; at the constant ratio after the jump
+    the sine-fit residual must stay 80 dB below the signal up to the last frame of the long call and through the next
+    calls (before the repair: residual at full scale in the last ~100 frames, stale FIFO memory)."""
+    w, r = 0.02, 8.772572708703153
+    ops = WITNESS_F36[1:] + ["proc 30000 3000"]
+    rc, lines, err, y = run_dump(exe_rel, [WITNESS_F36[0], "sig sine %g 0.5 0.3" % w], ops, tmp, "f36")
+    _, rr, _ = V.split_real(lines)
+    ods = [V.State(l).od for l in rr if l.startswith("R ") and V.has_state(l)]
+    ctx.count("evaluations")
+    if rc or len(ods) < 4 or len(y) != sum(ods) or ods[1] < 3000:
+        fails.append(dict(kind="oracle:f36-run", what="F36 witness with a sine: run failed or delivered %s (rc %d) %s" % (ods, rc, err[-200:]),
+                          ops=WITNESS_F36)); return
+    k0, k1 = ods[0], ods[0] + ods[1]
+    k = np.arange(len(y), dtype=np.float64)
+    M = np.stack([np.sin(w * r * k), np.cos(w * r * k)], axis=1)
+    a, b = k0 + 2200, k1 - 300                      # after the three 512-frame fades, before the end of the call
+    coef, *_ = np.linalg.lstsq(M[a:b], y[a:b], rcond=None)
+    res = np.abs(y - M @ coef)
+    amp = math.hypot(coef[0], coef[1])
+    # inside the long call: the property's 80 dB; in the 150 frames after it (other filters of the chain are cross-fading there:
+    # about -82 dB on the repaired code) 60 dB - the defect put both windows at full scale
+    worst_in = float(np.max(res[b:k1]))
+    worst_after = float(np.max(res[k1:min(len(y), k1 + 150)])) if len(y) > k1 else 0.0
+    db = lambda v: round(20 * math.log10(max(v, 1e-300) / amp), 1) if amp > 0 else 0.0
+    ctx.cov["f36_witness_sine_residual_db"] = dict(end_of_long_call=db(worst_in), next_150_frames=db(worst_after))
+    if amp <= 0 or worst_in > amp * 10 ** (RESID_DB / 20) or worst_after > amp * 10 ** ((RESID_DB + 20) / 20):
+        bad_in = worst_in > amp * 10 ** (RESID_DB / 20)
+        kk = (int(np.argmax(res[b:k1])) + b) if bad_in else (int(np.argmax(res[k1:min(len(y), k1 + 150)])) + k1)
+        fails.append(dict(kind="oracle:f36-garbage", what="sine through the F36 witness (0.67 -> 8.77 in one frame, one call of %d frames with three "
+                          "up-switches): residual %.3g on amplitude %.3g at output frame %d (the call ends at frame %d): the interpolator reads "
+                          "beyond the samples the restarted stage holds" % (ods[1], max(worst_in, worst_after), amp, kk, k1), ops=WITNESS_F36))
+
+
 def f35_family(rng):
     """the structured family in which F35 was found: start low, jump at once to near the maximum (the engine climbs one octave
     stage per 512-frame fade), a fast downward slew, then long calls (an up- and a down-switch inside one vr_process)"""
@@ -937,6 +972,8 @@ def run(ctx):
         numeric_constant(ctx, exe_rel, tmp, 22 if ctx.quick else 400, fails)
         numeric_tours(ctx, exe_rel, tmp, 10 if ctx.quick else 300, fails)
         f12_hits = schedule_stage(ctx, exe_rel, tmp, 12 if ctx.quick else 200, fails)
+        if "F36" not in known:
+            witness_f36_numeric(ctx, exe_rel, tmp, fails)
     if model_ok:
         f14_hits, f36_hits = san_stage(ctx, exe_san, fails, known)
 
@@ -970,6 +1007,7 @@ def run(ctx):
         "dyadic evaluation used by the Lean witnesses",
         "the sample kernels (poly_fir1_u/d, half_fir, double_fir0/1, half_iir, fade weights) are not modelled: the 80 dB residual and the "
         "absence of discontinuities are measured on sampled trajectories, not proved",
+        "the declared maximum ratio is below 2^30 (vr_create refuses larger ones; trajectories use 0.5 ... 64); "
         "ratio trajectories stay in [2^-6, max]; slew_len < 2^31; the first ratio is set with slew_len 0 as examples/5-variable-rate.c "
         "prescribes (a first request with slew_len > 0 is dropped by vr_set_io_ratio and the engine starts at the declared maximum: "
         "counted as first_request_with_slew_dropped, modelled as written)",
